@@ -172,6 +172,76 @@ def run(ctx: core.Ctx):
             env.close()
     ctx.evals += nw
 
+    # ---- histories of character sets: the same name / value bytes under one client character set, then under another - at the
+    #      parsers, between two connections of one server, and within a connection across SET NAMES.  What an earlier statement
+    #      was decoded with must not decide how this one is decoded.
+    from mysql_mimic.charset import CharacterSet as CS
+    csets = [c for c in (CS.utf8mb4, CS.latin1, getattr(CS, "cp1251", None), getattr(CS, "sjis", None), getattr(CS, "gbk", None)) if c is not None]
+    raw_names = [b"\xc3\xa9", b"k\xc3\xbc", b"\xe4\xb8\xad\xe6\x96\x87", b"\xd0\xb6"]
+    nh = 0
+    for A in csets:
+        for Bc in csets:
+            if A is Bc:
+                continue
+            for nm in raw_names:
+                try:
+                    nm.decode(A.codec), nm.decode(Bc.codec)
+                except (UnicodeDecodeError, LookupError):
+                    continue
+                attrs = [pk.P(nm, pk.T_VAR_STRING, False, nm + b"!")]
+                data = pk.encode_com_query(attrs, b"SELECT 1")
+                edata = pk.encode_execute(True, 7, 8, [], attrs)
+                for cset in (A, Bc):
+                    got = pk.impl_parse_com_query(data, True, charset=cset)
+                    gote = pk.impl_execute(edata, True, {7: ("SELECT 1", 0, None)}, charset=cset)
+                    nh += 2
+                    want = [(nm, nm + b"!")]
+                    if not (got[0] == "Ok" and pk.same_pairs(got[1][1], want)) and witness is None:
+                        witness = dict(kind="charset-history", parser="parse_com_query", name=list(nm), first_parsed_under=A.name, then_under=Bc.name,
+                                       failing_under=cset.name, got=repr(got)[:200])
+                    if not (gote[0] == "Ok" and pk.same_pairs(gote[1][1], want)) and witness is None:
+                        witness = dict(kind="charset-history", parser="parse_com_stmt_execute", name=list(nm), first_parsed_under=A.name, then_under=Bc.name,
+                                       failing_under=cset.name, got=repr(gote)[:200])
+    env = impl.Env(own_sleep=False)
+    try:
+        log = []
+
+        class RS(impl.Session):
+            async def query(self, expression, sql, attrs):
+                log.append(dict(attrs))
+                return [(1,)], ["a"]
+
+        srv = impl.make_server(env, RS)
+        caps = cl.BASE_CAPS | cl.CLIENT_QUERY_ATTRIBUTES
+
+        def connect(collation):
+            c = impl.Conn(env, srv, cid=collation)
+            env.settle(); c.take()
+            c.feed(cl.frame(cl.handshake_response(user=b"u", caps=caps, charset=collation), 1)); c.take()
+            return c
+
+        def send(c, nm, codec, where):
+            nonlocal witness, nh
+            n0 = len(log)
+            c.feed(cl.frame(bytes([cl.COM_QUERY]) + pk.encode_com_query([pk.P(nm, pk.T_VAR_STRING, False, nm + b"!")], b"SELECT a FROM t"), 0)); c.take()
+            nh += 1
+            want = {nm.decode(codec): (nm + b"!").decode(codec)}
+            if log[n0:] != [want] and witness is None:
+                witness = dict(kind="charset-history-wire", where=where, name=list(nm), client_character_set=codec, application_received=repr(log[n0:]), expected=repr(want))
+
+        for nm in raw_names[:3]:
+            a, b = connect(45), connect(8)                       # utf8mb4_general_ci, latin1_swedish_ci
+            send(a, nm, "utf8", "connection A (utf8mb4), first")
+            send(b, nm, "latin1", "connection B (latin1) after A sent the same bytes")
+            a.feed(cl.frame(bytes([cl.COM_QUERY]) + pk.encode_com_query([], b"SET NAMES latin1"), 0)); a.take()
+            send(a, nm, "latin1", "connection A after SET NAMES latin1")
+            b.feed(cl.frame(bytes([cl.COM_QUERY]) + pk.encode_com_query([], b"SET NAMES utf8mb4"), 0)); b.take()
+            send(b, nm, "utf8", "connection B after SET NAMES utf8mb4")
+            a.eof(); b.eof()
+    finally:
+        env.close()
+    ctx.evals += nh
+
     if witness is not None:
         core.report_violation(ctx, "query attributes / SQL text do not reach the application as sent", witness)
     if (not pr["ok"] or disagreements) and not ctx.violations:
@@ -187,7 +257,8 @@ def run(ctx: core.Ctx):
              "the client-side spec and parsed by the real parse_com_query / parse_com_stmt_execute vs the Coq model (latin1), with and "
              "without the capability, 0..3 positional parameters; attribute values / names of 251 .. 200001 bytes around every "
              "length-prefix boundary (implementation oracle); types.py fixed-width and length-encoded readers / writers against "
-             "Lib/Bytes.v; plus COM_QUERY through the wire with a recording session. "
+             "Lib/Bytes.v; plus COM_QUERY through the wire with a recording session; the same multi-byte name / value bytes under "
+             "pairs of client character sets in sequence (parsers, two connections, SET NAMES within a connection). "
              "distinct = distinct packets",
         samples=samples, distinct=len(distinct),
         extra=dict(value_kinds=kinds, wire_queries=nw, disagreements=len(disagreements), long_attribute_cases=nbig, reader_writer_cases=ntc, reader_writer_functions=tkinds),
